@@ -10,6 +10,7 @@ def ErrKind.name : ErrKind → String
   | .unicode => "unicode" | .extra => "extra" | .objClose => "objclose" | .arrClose => "arrclose"
   | .fnClose => "fnclose" | .notClosed => "notclosed" | .incomplete => "incomplete"
   | .expectedKey => "expectedkey" | .bom => "bom" | .hang => "hang"
+  | .expectedValue => "expectedvalue" | .plusNoString => "plusnostring"
   | .fault w => "fault:" ++ w.replace " " "_"
 
 def Ev.render : Ev → String
@@ -124,8 +125,9 @@ def parseTree (s : String) : Option JV :=
 
 /-- `run <tables> <P|T> <single|multi> <opts> <chunk lengths> <hex input>`.
 opts: `r` reader entry point, `F` the harness token functions are registered, `+` the instance was
-left with `plus` set, `x` (tokenizer) the instance was left expecting a key; `I`, `K`, `M` switch the
-pinned fast-path deviations fastInt, tokSlow, nlSkip OFF (the repaired machine).
+left with `plus` set, `x` (tokenizer) the instance was left expecting a key; `I`, `K` switch the
+pinned fast-path deviations fastInt, tokSlow OFF (the repaired machine); `M` (nlSkip off) is accepted and
+has no effect since 7b94de8: the flag is off in the model of the code as it is.
 
 `senstr <0|1 htmlSafe> <hex>` = AppendSENString; `tight <opts n e h> <tree>` = the tight writer. -/
 def handleRun (tb fe md opts chunks hx lsk lk : String) : String :=
@@ -138,7 +140,7 @@ def handleRun (tb fe md opts chunks hx lsk lk : String) : String :=
       let cfg : Cfg := {
         tokenizer := fe = "T", onlyOne := md = "single", reader := opts.contains 'r',
         fn := if opts.contains 'F' then harnessFn else fun _ => none,
-        fastInt := !opts.contains 'I', tokSlow := !opts.contains 'K', nlSkip := !opts.contains 'M' }
+        fastInt := !opts.contains 'I', tokSlow := !opts.contains 'K' }
       let prev : St := { plus := opts.contains '+', exkey := opts.contains 'x', lastStrKey := lastStrKey, lastKey := lastKey }
       renderOut cfg.tokenizer (call T cfg prev (if ns.isEmpty then [bs] else splitChunks bs ns))
   | _, _, _, _, _ => "bad-op"
